@@ -141,6 +141,20 @@ func (this *RaftGroup) VerifLastApplied() (uint64, bool) {
 	return a, ok
 }
 
+// VerifWaitLoopExit waits until the ready loop has returned (after Stop or
+// VerifKill): from then on this incarnation no longer touches its log store.
+func (this *RaftGroup) VerifWaitLoopExit(d time.Duration) bool {
+	if !this.started {
+		return true
+	}
+	select {
+	case <-this.done:
+		return true
+	case <-time.After(d):
+		return false
+	}
+}
+
 func (this *RaftGroup) VerifStopped() bool {
 	select {
 	case <-this.ctx.Done():
